@@ -107,7 +107,7 @@ def build_model():
         od = os.path.join(BUILD, "ocaml")
         os.makedirs(od, exist_ok=True)
         srcs = [os.path.join(COQ, "Extract", "model.mli"), os.path.join(COQ, "Extract", "model.ml"),
-                os.path.join(VERIF, "ocaml", "wire.ml"), os.path.join(VERIF, "ocaml", "drv.ml")]
+                os.path.join(VERIF, "ocaml", "wire.ml"), os.path.join(VERIF, "ocaml", "zenc.ml"), os.path.join(VERIF, "ocaml", "drv.ml")]
         h = hashlib.sha256()
         for s in srcs:
             h.update(open(s, "rb").read())
@@ -117,7 +117,7 @@ def build_model():
         for s in srcs:
             shutil.copy(s, od)
         rc, o2 = sh(["ocamlfind", "ocamlopt", "-O3", "-w", "-a", "-package", "str", "-linkpkg",
-                     "model.mli", "model.ml", "wire.ml", "drv.ml", "-o", "zvm"], cwd=od, timeout=900)
+                     "model.mli", "model.ml", "wire.ml", "zenc.ml", "drv.ml", "-o", "zvm"], cwd=od, timeout=900)
         if rc != 0:
             return False, out + o2
         open(stamp, "w").write(h.hexdigest())
